@@ -349,3 +349,61 @@ theorem exists_of_isOkN {r : Option (OutN × List EvN)} (h : isOkN r = true) :
   | some (.ok p fm s m, t), _ => exact ⟨p, fm, s, m, t, rfl⟩
 
 end Lp.C11
+
+namespace Lp.C11
+
+variable (rnd : Rat → Rat) (f : Pt → Rat)
+
+/-! ### `nfunc` counts the evaluations after the initial simplex -/
+
+theorem shrinkAll_length1 (ndim ilo : Nat) (plo : Pt) : ∀ (p : List Pt) (i : Nat) (ys : List Rat),
+    (shrinkAll rnd f ndim ilo plo i p ys).1.length = p.length
+  | [], i, ys => by simp [shrinkAll]
+  | row :: rest, i, ys => by
+    unfold shrinkAll
+    dsimp only
+    have ih := shrinkAll_length1 ndim ilo plo rest (i + 1) ys.tail
+    split_ifs <;> simp [ih]
+
+theorem filter_ne_length : ∀ (n k : Nat), k < n → ((List.range n).filter (· ≠ k)).length = n - 1
+  | 0, k, h => by omega
+  | n + 1, k, h => by
+    rw [List.range_succ, List.filter_append, List.length_append]
+    by_cases hk : k = n
+    · subst hk
+      have : (List.range k).filter (· ≠ k) = List.range k := by
+        apply List.filter_eq_self.mpr
+        intro a ha
+        have := List.mem_range.mp ha
+        simp; omega
+      rw [this]
+      simp
+    · have hlt : k < n := by omega
+      rw [filter_ne_length n k hlt]
+      have : n ≠ k := fun e => hk e.symm
+      simp [this]
+      omega
+
+theorem nmStep_nfunc {ftol : Rat} {ndim : Nat} {s s' : NM} {tr : List EvN} (hn : 2 ≤ s.y.length)
+    (hinv : NMInv f s) (hm : s.p.length = ndim + 1) (h : nmStep rnd f ftol ndim s = .cont s' tr) :
+    s'.nfunc = s.nfunc + tr.length := by
+  have hc := scan_ok hn
+  have hpl : s.p.length = s.y.length := by rw [hinv, List.length_map]
+  unfold nmStep at h
+  dsimp only at h
+  split_ifs at h <;> simp only [NMStep.cont.injEq] at h
+  · obtain ⟨rfl, rfl⟩ := h
+    simp [amotry_nfunc]
+  · obtain ⟨rfl, rfl⟩ := h
+    have hl : (amotry rnd f ndim (amotry rnd f ndim { s with nfunc := s.nfunc + 2 } (scan s.y).ihi K.nmReflect).1 (scan s.y).ihi K.nmContract).1.p.length = ndim + 1 := by
+      rw [← hm]
+      unfold amotry; dsimp only; split_ifs <;> simp
+    simp only [List.length_append, List.length_cons, List.length_nil, List.length_map, shrinkAll_length1, amotry_nfunc]
+    rw [filter_ne_length _ _ (by rw [hl, ← hm, hpl]; exact hc.ilo_lt), hl]
+    omega
+  · obtain ⟨rfl, rfl⟩ := h
+    simp [amotry_nfunc]
+  · obtain ⟨rfl, rfl⟩ := h
+    simp [amotry_nfunc]
+
+end Lp.C11
